@@ -27,6 +27,7 @@ let why (p : X_c01.prog) : string option =
   let rec e = function
     | EInt _ | EStr _ | EBool _ | EUnit | EVar _ -> ()
     | EBin (OMul, _, _) -> raise (Why "operator *")
+    | EBin (ODiv, _, _) -> raise (Why "operator /")
     | EBin (_, a, b) | EEq (_, a, b) -> e a; e b
     | ENot a -> e a
     | EIf (c, a, b) -> e c; bl a; bl b
